@@ -96,9 +96,40 @@ fn apply_range<'a, A: VC>(s: &'a SeqSlice<A>, r: &Rg) -> &'a SeqSlice<A> {
     }
 }
 
+/// the same range forms with the OWNED sequence as the indexed value (an `Index` impl on `Seq`
+/// itself, should one exist, takes precedence over the ones reached through `Deref`)
+fn apply_range_owned<'a, A: VC>(s: &'a Seq<A>, r: &Rg) -> &'a SeqSlice<A> {
+    match r.form {
+        0 => &s[r.a..r.b],
+        1 => &s[r.a..=r.b],
+        2 => &s[..r.b],
+        3 => &s[..=r.b],
+        4 => &s[r.a..],
+        5 => &s[..],
+        6 => &s[r.a],
+        _ => panic!("bad range form"),
+    }
+}
+
 fn slice_of<'a, A: VC>(regs: &'a [Seq<A>], sd: &Sd) -> &'a SeqSlice<A> {
-    let mut s: &SeqSlice<A> = &regs[sd.reg];
-    for r in &sd.ranges {
+    let owned: &Seq<A> = &regs[sd.reg];
+    let mut it = sd.ranges.iter();
+    let mut s: &SeqSlice<A> = match it.next() {
+        None => owned,
+        Some(r) => {
+            let via_owned = apply_range_owned(owned, r);
+            let whole: &SeqSlice<A> = owned;
+            let via_slice = apply_range(whole, r);
+            if !core::ptr::eq(via_owned, via_slice) {
+                assert!(
+                    lencodes(via_owned) == lencodes(via_slice),
+                    "indexing the owned sequence and its borrowed slice select different symbols"
+                );
+            }
+            via_owned
+        }
+    };
+    for r in it {
         s = apply_range(s, r);
     }
     s
@@ -935,6 +966,10 @@ where
         "toowned" => {
             let sd = t.sd();
             let c = slice_of(&st.regs, &sd).to_owned();
+            if sd.ranges.is_empty() {
+                let d: Seq<A> = st.regs[sd.reg].to_owned();
+                assert!(lencodes::<A>(&d) == lencodes::<A>(&c), "to_owned of Seq and of its slice differ");
+            }
             st.regs.push(c);
         }
         "fromslice" => {
@@ -1256,6 +1291,13 @@ where
                 .chain(slice_of(&st.regs, &b))
                 .map(|x| x.to_bits().to_string())
                 .collect();
+            if a.ranges.is_empty() && b.ranges.is_empty() {
+                let w: Vec<String> = st.regs[a.reg]
+                    .chain(&st.regs[b.reg])
+                    .map(|x| x.to_bits().to_string())
+                    .collect();
+                assert!(v == w, "chain on owned sequences differs from chain on their slices");
+            }
             st.out.push(v.join(" "));
         }
         "eq" => {
